@@ -71,7 +71,7 @@ let basic_model (shared : sop list) (threads : string list list) : bool =
 
 let scen_of = function
   | "bindviews" -> Some ScReadViews | "walkcfg" -> Some ScWalk
-  | "walklazy" -> Some (if !cfginit_writes then ScWalkLazyCfg else ScWalk)
+  | "walklazy" | "walknoctx" | "walknochooser" -> Some (if !cfginit_writes then ScWalkLazyCfg else ScWalk)
   | "load" -> Some ScLoad | "proto" -> Some ScProtoBuild | "wrapschema" -> Some ScWrapSchema
   | "wrapinfer" -> Some (ScWrapInferred !tsmode)
   (* cloning / merging OUT OF a shared type system only loads it and builds fresh types; a walk with a
@@ -81,7 +81,7 @@ let scen_of = function
 (* the race classes the model allows for a scenario it predicts racy *)
 let race_classes = function
   | "stream" -> ["race_streambytes_reader"]
-  | "walklazy" -> ["race_traversal_config_init"]
+  | "walklazy" | "walknoctx" | "walknochooser" -> ["race_traversal_config_init"]
   | "wrapinfer" ->
     (match !tsmode with
      | TsUnsync -> ["race_bindnode_default_typesystem"; "race_typesystem_lookup_during_infer"]
